@@ -195,9 +195,69 @@ def _fromstr_table(ctx, fn):
     return out
 
 
-def rule_WT2(ctx, tier):
-    rr = RuleResult("WT2", "twin definitions agree: ApiError structs, status/address string tables, discriminants, (de)serialiser adapters")
+IDENTIFIER_DISPLAYS = (
+    # (type, Display impl, byte length)
+    ("Locator", "<teos_common::appointment::Locator as std::fmt::Display>::fmt", 16),
+    ("UUID", "<teos::extended_appointment::UUID as std::fmt::Display>::fmt", 20),
+    ("UserId", "<teos_common::UserId as std::fmt::Display>::fmt", 33),
+)
+_WHOLE_VALUE = ("to_vec", "serialize", "as_slice", "as_ref", "to_owned", "hex::encode", "to_lower_hex_string", "to_hex")
+
+
+def _body_strings(b):
+    out = []
+
+    def walk(o):
+        if isinstance(o, dict):
+            for k_ in ("str", "bytes"):
+                if k_ in o:
+                    out.append(o[k_])
+            for v in o.values():
+                walk(v)
+        elif isinstance(o, list):
+            for v in o:
+                walk(v)
+    walk(b.blocks)
+    return out
+
+
+def identifier_text_forms(ctx, rr, only=None):
+    """the text form of a fixed-length identifier is the lowercase hex of ALL its bytes (two digits per byte): it is
+    part of a signed message (`get appointment <locator>`), of URLs, of JSON keys and of what from_hex / FromStr parse
+    back.  Accepted: Display formats hex::encode(<the whole value>), or hands over to the Display of the wrapped value,
+    or formats an integer of the identifier's size with `{:0<2n>x}`."""
     P = ctx.prog
+    for ty, name, nbytes in IDENTIFIER_DISPLAYS:
+        if only and ty not in only:
+            continue
+        b = P.bodies.get(name)
+        if b is None:
+            rr.anchor_missing(name)
+            continue
+        args = sites_containing(b, "Argument", "::new_")
+        if len(args) != 1:
+            rr.fail("identifier-text-form:%s" % ty, "Display of %s formats %d values; its text form is one hex string of %d digits" % (ty, len(args), 2 * nbytes), where=b.span)
+            continue
+        kind = (call_target(b.term(args[0])) or "").split("::")[-1]
+        a = arg_origin(ctx, b, args[0], 0)
+        calls = list(og.calls_in(a))
+        whole = all(any(w in c for w in _WHOLE_VALUE) for c in calls) and ("param", b.id, 1) in list(og.walk(a))
+        tmpl = "".join(_body_strings(b))
+        if kind.startswith("new_display") and whole and any("hex::encode" in c or "to_lower_hex_string" in c or "to_hex" in c for c in calls):
+            rr.ok("%s: text form = hex of the whole value" % ty, sample={"rule": rr.rule, "type": ty, "display argument": og.show(a)[:160]})
+        elif kind.startswith("new_display") and not calls and isinstance(a, tuple) and a[0] == "proj" and a[1] == ("param", b.id, 1):
+            rr.ok("%s: text form = that of the wrapped value" % ty, sample={"rule": rr.rule, "type": ty, "display argument": og.show(a)[:160]})
+        elif kind.startswith("new_lower_hex") and (chr(2 * nbytes) + "\\x00" in tmpl or chr(2 * nbytes) + "\x00" in tmpl) and ("param", b.id, 1) in list(og.walk(a)):
+            rr.ok("%s: text form = integer in hex, padded to %d digits" % (ty, 2 * nbytes))
+        else:
+            why = "an integer printed with `{:x}` drops leading zeros" if kind.startswith("new_lower_hex") else "it is `%s` (%s)" % (og.show(a)[:120], kind)
+            rr.fail("identifier-text-form:%s" % ty, "Display of %s is not the hex encoding of all its %d bytes: %s. The text is what `get appointment <locator>` is signed over, what URLs / JSON carry and what from_hex parses back" % (ty, nbytes, why), where=b.span)
+
+
+def rule_WT2(ctx, tier):
+    rr = RuleResult("WT2", "twin definitions agree: ApiError structs, status/address string tables, discriminants, (de)serialiser adapters, identifier text forms")
+    P = ctx.prog
+    identifier_text_forms(ctx, rr)
     a, b = P.adts.get("teos::api::http::ApiError"), P.adts.get("watchtower_plugin::net::http::ApiError")
     if not a or not b:
         rr.anchor_missing("ApiError structs")
